@@ -14,6 +14,7 @@ pub mod c15;
 pub mod c16;
 pub mod c17;
 pub mod c18;
+pub mod c20;
 
 use crate::rt::Prop;
 
@@ -35,6 +36,7 @@ pub fn lookup(id: &str) -> Option<&'static dyn Prop> {
         "C16" => Some(&c16::C16),
         "C17" => Some(&c17::C17),
         "C18" => Some(&c18::C18),
+        "C20" => Some(&c20::C20),
         _ => None,
     }
 }
